@@ -71,10 +71,11 @@ func H_C11_budget() {
 // H_C11_full: every budget from 0 to N+2 for short inputs, among them inputs
 // that record an error in mid-parse (invalid UTF-8, a malformed number, an
 // index on the left) — the budget error must not be lost behind it.
-var fullC11 = []string{"a==1", "a == \"\xff\"", "a == 1x", "a[1] == 2", "(a==1)", "a in \"/x\"", "not a", "a == \"\\q\""}
+var fullC11 = []string{"a==1", "a == \"\xff\"", "a == 1x", "a[1] == 2", "(a==1)", "a in \"/x\"", "not a", "a == \"\\q\"", "a == \"\xff\xfe\xff\xfe\xff\xfe\xff\xfe\xff\xfe\xff\xfe\""}
 
 func H_C11_full() {
-	ci := vSeed() % len(fullC11)
+	// quick: one seed-selected input and the one that collects a dozen errors
+	ci := []int{vSeed() % (len(fullC11) - 1), len(fullC11) - 1}[vChoose(2)]
 	if vTier() > 0 {
 		ci = vChoose(len(fullC11))
 	}
@@ -96,6 +97,32 @@ func H_C11_full() {
 		vAssert(isBudgetErr(e1) && r1 == nil, what+": every budget below N fails with the max-expressions error")
 		vCover("below-threshold")
 	}
+}
+
+// H_C11_sequence: N is a function of the input alone — a parse that ran out
+// of budget (at any point, for instance inside a lookahead) leaves nothing
+// behind that changes what a later parse returns.
+func H_C11_sequence() {
+	firsts := []string{"x==\"y\"", "a == 1x", "not a in b", "foo == \"bar\""}
+	seconds := []string{"foo == ", "a == 1", "(a == 1", "a == \"\\q\""}
+	fi, si := 0, (vSeed()+3)%4 // quick: the shortest first input (N = 588) and one seed-selected second
+	if vTier() > 0 {
+		fi, si = vChoose(4), vChoose(4)
+	}
+	first, second := firsts[fi], seconds[si]
+	r0, e0 := Parse("", []byte(second))
+	p := newParser("", []byte(first))
+	p.parse(g)
+	N := p.ExprCnt
+	n := vUint64()
+	vAssume(n >= 1 && n < N)
+	_, e1 := Parse("", []byte(first), MaxExpressions(n))
+	vAssert(isBudgetErr(e1), first+": a budget below N fails with the max-expressions error")
+	r2, e2 := Parse("", []byte(second))
+	vAssert(sameErr(e0, e2) && dumpOf(r0) == dumpOf(r2), second+": a parse after an exhausted one returns what it returned before")
+	r3, e3 := Parse("", []byte(second), MaxExpressions(1<<40))
+	vAssert(sameErr(e0, e3) && dumpOf(r0) == dumpOf(r3), second+": and so does a generously limited one")
+	vCover("reached")
 }
 
 // H_C11_nesting: adversarial nesting is cut off within the budget.
